@@ -175,10 +175,18 @@ func runReplay(c *Ctx, path string) int {
 		}
 		cd.Group = append(cd.Group, gc)
 	}
-	ok, clauses, err := c.replayOnce(cd, module, cfg)
-	if err != nil {
-		fmt.Fprintln(os.Stderr, "MACHINERY-PROBLEM:", err)
-		return 2
+	tries := 1
+	if cs.Header().Family == "conc" {
+		tries = 40 // scheduler-dependent: re-executed until the violation shows again
+	}
+	var ok bool
+	var clauses []string
+	for t := 0; t < tries && !ok; t++ {
+		ok, clauses, err = c.replayOnce(cd, module, cfg)
+		if err != nil {
+			fmt.Fprintln(os.Stderr, "MACHINERY-PROBLEM:", err)
+			return 2
+		}
 	}
 	if ok {
 		fmt.Printf("VIOLATION property=%s replay=%s clauses=%s\n", c.Prop, filepath.Clean(path), strings.Join(clauses, ","))
